@@ -3,9 +3,9 @@ EXTENDS AMDesign
 SR_both == <<TRUE, FALSE>>
 SR_one  == <<TRUE>>
 W_none  == << >>
-W_rec   == << [integ |-> "webhook/0", from |-> 3, to |-> 6, kind |-> "rec"] >>
-W_unrec == << [integ |-> "webhook/0", from |-> 2, to |-> 5, kind |-> "unrec"] >>
-W_hang  == << [integ |-> "webhook/0", from |-> 2, to |-> 4, kind |-> "hang"] >>
+W_rec   == << [recv |-> "r1", integ |-> "webhook/0", from |-> 3, to |-> 6, kind |-> "rec"] >>
+W_unrec == << [recv |-> "r1", integ |-> "webhook/0", from |-> 2, to |-> 5, kind |-> "unrec"] >>
+W_hang  == << [recv |-> "r1", integ |-> "webhook/0", from |-> 2, to |-> 4, kind |-> "hang"] >>
 GapOne(k) == 1
 \* observation-only variables are hidden: none here (the monitor state is part of the judgement)
 =============================================================================
